@@ -5,6 +5,7 @@ Import ListNotations.
 From Verif Require Import C01.Lisp C01.Py C01.Gen C01.Sim C01.Top.
 From Verif Require C01.FLisp C01.FCorr C01.FRefuted.
 From Verif Require C01L.LLisp C01L.LPy C01L.LGen C01L.LSim C01L.LTop.
+From Verif Require C01X.XLisp C01X.XPy C01X.XGen C01X.XSim C01X.XTop.
 
 (** First-order core (constants, locals with shadowing, if, do, let*, calls of primitives
     with any number of arguments, nested to any depth).  PARTIAL: guarded by the executable
@@ -57,6 +58,35 @@ Example C01_counting_loop :
   LGen.lrun 40 LTop.count_loop = Some (VVec [VInt 0; VInt 1; VInt 2], [VInt 0; VInt 1; VInt 2]).
 Proof. exact LTop.count_loop_ok. Qed.
 
+(** The same core further extended with throw and try/catch/finally (C01X): every outcome of a
+    closed program -- a value, or an exception that leaves it -- is reproduced by the compiled
+    code with the same trace: raising skips to the nearest matching catch, the handler's local
+    is bound to the exception and unbound afterwards, finally runs exactly once on every way
+    out and its own exception replaces the pending outcome, exceptions leave enclosing loops.
+    PARTIAL: guard [hazard_free] (no hoisting hazard, distinct loop binders, no recur in tail
+    position of a try, which the source semantics excludes too: finding F-02c); fn*/def are
+    not in this fragment. *)
+Theorem C01_compile_correct_exceptions_partial : forall fuel e o tr,
+  XLisp.xeval fuel (fun _ => None) e = Some (o, tr) -> XGen.hazard_free e = true ->
+  match o with
+  | XLisp.OVal v => exists m, forall m', (m <= m')%nat -> XGen.xrun m' e = Some (XGen.XRVal v tr)
+  | XLisp.OExc c _ => exists m, forall m', (m <= m')%nat -> XGen.xrun m' e = Some (XGen.XRExc c tr)
+  | XLisp.ORec _ => True
+  end.
+Proof. exact XTop.xcompile_correct. Qed.
+Theorem C01_exception_simulation : forall fuel, XSim.xsim fuel.
+Proof. exact XSim.xsim_all. Qed.
+Example C01_catch_finally :
+  XGen.hazard_free XTop.caught = true /\
+  XLisp.xeval 30 (fun _ => None) XTop.caught = Some (XLisp.OVal (VExc 1 (VInt 7)), [VInt 1; VInt 3; VInt 4]) /\
+  XGen.xrun 30 XTop.caught = Some (XGen.XRVal (VExc 1 (VInt 7)) [VInt 1; VInt 3; VInt 4]).
+Proof. exact XTop.caught_ok. Qed.
+Example C01_exception_leaves_loop :
+  XGen.hazard_free XTop.escaping = true /\
+  XLisp.xeval 60 (fun _ => None) XTop.escaping = Some (XLisp.OExc 2 (VInt 2), [VInt 0; VInt 1; VInt 2]) /\
+  XGen.xrun 60 XTop.escaping = Some (XGen.XRExc 2 [VInt 0; VInt 1; VInt 2]).
+Proof. exact XTop.escaping_ok. Qed.
+
 (** Full fragment (fn*/closures, loop*/recur, try/catch/finally, throw, def, literals):
     executable model (FLisp/FPy/FGen) tied to the compiler by the correspondence run.  The
     full statement "model e = spec e for every program" is REFUTED by these witnesses, each
@@ -96,3 +126,7 @@ Print Assumptions C01_context_independent_partial.
 Print Assumptions C01_truthiness.
 Print Assumptions C01_simulation.
 Print Assumptions C01_nonvacuous.
+Print Assumptions C01_compile_correct_exceptions_partial.
+Print Assumptions C01_exception_simulation.
+Print Assumptions C01_catch_finally.
+Print Assumptions C01_exception_leaves_loop.
